@@ -45,7 +45,7 @@ func init() {
 		Technique: "bounded-exhaustive input enumeration against reference codecs (strconv, encoding/hex, math/big)",
 		Rule: "all tokens of length 0..6 (thorough: 0..7) over the alphabet " + strconv.Quote(c17Alphabet) + " fed to Uint64/Byte/Bytes.UnmarshalJSON directly and via encoding/json and goccy/go-json; " +
 			"uint64 values with <=2 non-zero nibbles + boundaries x {lower,upper,mixed,zero-padded} spellings; byte strings of every length x 3 patterns x 2 cases, one bad digit at every position (len<=64), odd digit counts; " +
-			"all ordered triples from 12 values into one Bytes destination; bint Encode/Decode boundary set x pad 1..32. " +
+			"all ordered triples from 12 hex values and the token null into one Bytes destination (directly and as a struct field through encoding/json and goccy/go-json); bint Encode/Decode boundary set x pad 1..32. " +
 			"A case is non-trivial when it is a judged spelling (0x-prefixed string token, or a structured value); every case is distinct by construction.",
 		Assumptions: []string{
 			"quantities with more than 16 hex digits are not spellings of a 64-bit value and are not judged",
@@ -300,15 +300,34 @@ func c17BytesLen(c *fw.Ctx, l int) {
 	}
 }
 
-var c17SeqVals = []string{"", "00", "ff", "0102", "a1b2c3", "00000000", "ffffffffffffffff", "11", "2233445566778899aabbccddeeff0011", "7f", "deadbeef", "00ff00ff00"}
+// hex values, plus the JSON token null ("tok:null"): decoding null into a reused destination must leave an empty value
+var c17SeqVals = []string{"", "00", "ff", "0102", "a1b2c3", "00000000", "ffffffffffffffff", "11", "2233445566778899aabbccddeeff0011", "7f", "deadbeef", "00ff00ff00", "tok:null"}
+
+type c17Doc struct {
+	To eth.Bytes `json:"to"`
+}
 
 func c17Seq(c *fw.Ctx, seq []string) {
 	var dst eth.Bytes
 	var dst2 eth.Bytes
+	var viaStd, viaGoccy c17Doc
 	for step, s := range seq {
-		want, _ := hex.DecodeString(s)
-		if err := dst.UnmarshalJSON([]byte(`"0x` + s + `"`)); err != nil || !bytes.Equal(dst, want) {
+		tok := `"0x` + s + `"`
+		var want []byte
+		if strings.HasPrefix(s, "tok:") {
+			tok = strings.TrimPrefix(s, "tok:")
+		} else {
+			want, _ = hex.DecodeString(s)
+		}
+		if err := dst.UnmarshalJSON([]byte(tok)); err != nil || !bytes.Equal(dst, want) {
 			c.Violation("C17", "mismatch", "bytes/reuse-stale", fmt.Sprintf("sequence %v step %d: got %x err=%v want %x", seq, step, []byte(dst), err, want), c17Case{Kind: "seq", Seq: seq})
+		}
+		doc := []byte(`{"to":` + tok + `}`)
+		if err := stdjson.Unmarshal(doc, &viaStd); err != nil || !bytes.Equal(viaStd.To, want) {
+			c.Violation("C17", "mismatch", "bytes/reuse-stale-via-encoding-json", fmt.Sprintf("sequence %v step %d: got %x err=%v want %x", seq, step, []byte(viaStd.To), err, want), c17Case{Kind: "seq", Seq: seq})
+		}
+		if err := gojson.Unmarshal(doc, &viaGoccy); err != nil || !bytes.Equal(viaGoccy.To, want) {
+			c.Violation("C17", "mismatch", "bytes/reuse-stale-via-goccy", fmt.Sprintf("sequence %v step %d: got %x err=%v want %x", seq, step, []byte(viaGoccy.To), err, want), c17Case{Kind: "seq", Seq: seq})
 		}
 		dst2.Write(want)
 		if !bytes.Equal(dst2, want) {
